@@ -362,6 +362,19 @@ class Effect:
         return f"{self.kind} {self.target}[{show(self.key) if self.key is not None else ''}] <- {show(self.val) if self.val is not None else ''} if {[(show(c)[:60], t) for c, t in self.conds]}"
 
 
+def _alias_alts(v):
+    """[(extra conditions, object name)] when v is a plain name or a conditional choice between plain names"""
+    if not isinstance(v, tuple):
+        return None
+    if v[0] == 'sym' and v[1].isidentifier():
+        return [([], v[1])]
+    if v[0] == 'where':
+        a, b = _alias_alts(v[2]), _alias_alts(v[3])
+        if a and b:
+            return [([(v[1], True)] + c, n) for c, n in a] + [([(v[1], False)] + c, n) for c, n in b]
+    return None
+
+
 class Path:
     def __init__(self, conds, env, value, how, line, effects):
         self.conds, self.env, self.value, self.how, self.line, self.effects = conds, env, value, how, line, effects
@@ -384,6 +397,8 @@ class PEval:
         self.maxpaths = 600
         self.loopctx = ()
         self.unroll_const = False        # True: `for v in <literal list of <= 8 constants>` is unrolled (break / continue honoured)
+        self.merge_ifs = False           # True: an `if` whose branches run straight through (no return / raise / break) does not fork the
+                                         # path: its effects carry the test, its assignments become conditional values
         self.record = set()              # call names ('.to_csv', 'f:open') also recorded as effects when their value is assigned
         self.inline = {}                 # name -> FunctionDef: `x = name(args)` / `return name(args)` fork over the callee's paths
 
@@ -395,6 +410,15 @@ class PEval:
 
     def ex(self, node, env):
         return self.b.build(node, env)
+
+    @staticmethod
+    def _straight(s):
+        for n in ast.walk(s):
+            if isinstance(n, (ast.Return, ast.Raise, ast.Break, ast.Continue, ast.Try, ast.With, ast.While)) and n is not s:
+                return False
+            if isinstance(n, ast.For) and not isinstance(n.iter, (ast.List, ast.Tuple)):
+                return False
+        return True
 
     def _callee_paths(self, call, env):
         """paths of an inlinable callee at a call with plain positional / keyword arguments, or None"""
@@ -441,6 +465,16 @@ class PEval:
         elif isinstance(t, ast.Subscript):
             base = dotted(t.value) or ast.unparse(t.value)
             key = self.b._index(t.slice, env)
+            cur = env.get(base)
+            # a local that merely names one of several objects (`target = a if c else b`): the store goes to the object named
+            alts = _alias_alts(cur) if isinstance(t.value, ast.Name) else None
+            if alts:
+                for extra, nm in alts:
+                    effects.append(Effect('store', nm, key, v, list(conds) + extra, line, self.loopctx))
+                    if not extra:
+                        old = env.get(nm, ('sym', nm))
+                        env[nm] = ('call', 'setitem', (old, key, v))
+                return
             effects.append(Effect('store', base, key, v, conds, line, self.loopctx))
             old = env.get(base, ('sym', base))
             env[base] = ('call', 'setitem', (old, key, v))
@@ -517,6 +551,28 @@ class PEval:
                 v = (op, cur, rhs) if op else ('call', 'aug:' + type(s.op).__name__, (cur, rhs))
                 self.bind(s.target, v, env, effects, conds, line)
                 continue
+            if isinstance(s, ast.If) and self.merge_ifs and self._straight(s):
+                test = self.ex(s.test, env)
+                outs = []
+                for body, t in ((s.body, True), (s.orelse, False)):
+                    sub = PEval(self.b.resolve)
+                    sub.b = self.b
+                    sub.unroll_const, sub.maxpaths, sub.ignore, sub.record, sub.inline, sub.merge_ifs = \
+                        self.unroll_const, self.maxpaths, self.ignore, self.record, self.inline, True
+                    sub.loopctx = self.loopctx
+                    sub._walk(list(body), dict(env), conds + [(test, t)], [])
+                    outs.append(sub.paths)
+                if all(len(o) == 1 and o[0].how == 'end' for o in outs):
+                    (pt,), (pf,) = outs
+                    effects.extend(pt.effects)
+                    effects.extend(pf.effects)
+                    for k in set(pt.env) | set(pf.env):
+                        a_, b_ = pt.env.get(k, env.get(k)), pf.env.get(k, env.get(k))
+                        if a_ is None or b_ is None:
+                            a_ = a_ if a_ is not None else ('sym', k)
+                            b_ = b_ if b_ is not None else ('sym', k)
+                        env[k] = a_ if a_ == b_ else ('where', test, a_, b_)
+                    continue
             if isinstance(s, ast.If):
                 test = self.ex(s.test, env)
                 rest = stmts[i + 1:]
@@ -575,6 +631,18 @@ class PEval:
                     b = b.value
                 if isinstance(b, ast.Name):
                     stored.add(b.id)
+        # a local that names one of several objects (`t = a if c else b`; `t = a`): a store through it is a store into each of them
+        alias = {}
+        for n in ast.walk(s):
+            if isinstance(n, ast.Assign) and len(n.targets) == 1 and isinstance(n.targets[0], ast.Name):
+                v_ = n.value
+                names = [v_.id] if isinstance(v_, ast.Name) else \
+                    [x.id for x in (v_.body, v_.orelse) if isinstance(x, ast.Name)] if isinstance(v_, ast.IfExp) else []
+                if names and (isinstance(v_, ast.Name) or len(names) == 2):
+                    alias.setdefault(n.targets[0].id, set()).update(names)
+        for n in ast.walk(s):
+            if isinstance(n, (ast.Subscript, ast.Attribute)) and isinstance(n.ctx, ast.Store) and isinstance(n.value, ast.Name) and n.value.id in alias:
+                stored |= alias[n.value.id]
         sub_env = {k: v for k, v in env.items() if k.split(".")[0] not in stored}
         tag = f"loop@{s.lineno}"
         if isinstance(s, ast.For):
